@@ -466,7 +466,12 @@ resp0_ctx_recv(void *arg, nni_aio *aio)
 	ctx->btrace_len = len;
 	ctx->pipe_id    = p->id;
 	if (ctx == &s->ctx) {
-		nni_pollable_raise(&s->writable);
+		// We can respond right away only if the pipe is idle.
+		if (p->busy) {
+			nni_pollable_clear(&s->writable);
+		} else {
+			nni_pollable_raise(&s->writable);
+		}
 	}
 	nni_mtx_unlock(&s->mtx);
 
